@@ -521,6 +521,9 @@ func (e *ErrPlan) build(ctx context.Context) error {
 			ce.Meta().Add(k, v)
 		}
 	}
+	for k, vs := range e.RawMeta {
+		ce.Meta()[k] = append(ce.Meta()[k], vs...)
+	}
 	var out error = ce
 	if e.Wrapped {
 		// code, message, details and metadata are those of the coded error in
